@@ -154,8 +154,26 @@ func (r *schemaLoader) resolveRef(ref *Ref, target interface{}, basePath string)
 		if err != nil {
 			return err
 		}
+
+		if isNilValue(res) {
+			// the pointer leads to a member that a typed document knows but does not hold
+			return fmt.Errorf("%s designates nothing: %w", ref.String(), ErrUnknownTypeForReference)
+		}
 	}
 	return swag.DynamicJSONToStruct(res, target)
+}
+
+// isNilValue tells whether a looked up value is nil, or a nil pointer, map, slice or interface.
+func isNilValue(v interface{}) bool {
+	if v == nil {
+		return true
+	}
+	switch rv := reflect.ValueOf(v); rv.Kind() { //nolint:exhaustive
+	case reflect.Ptr, reflect.Map, reflect.Slice, reflect.Interface:
+		return rv.IsNil()
+	default:
+		return false
+	}
 }
 
 func (r *schemaLoader) load(refURL *url.URL) (interface{}, url.URL, bool, error) {
